@@ -193,6 +193,21 @@ check('C14', 'DESIGN.md 4/C14',
       'identically in both copies is invisible to this check (the '
       'model-based checks cover that).')
 
+check('C18', 'DESIGN.md 4/C18',
+      'property-based testing of the admin gate (generated near-miss '
+      'payloads against the documented acceptance rule), read-only command '
+      'fuzzing with a state-unchanged oracle, and differential testing '
+      '(instrumented vs plain server on the same generated scenario)',
+      'gate: every generated auth payload must be accepted iff the '
+      'documented rule says so and a refused candidate holds no membership '
+      'and receives nothing later; readonly: every admin command with '
+      'generated targets leaves application clients untouched in read-only '
+      'mode; transparency: application clients\' normalised traces on a '
+      'plain and an instrumented server (both modes, with/without an admin) '
+      'must be identical.',
+      TB + ' Statistics tasks are never run; engine.io Socket class '
+      'attributes patched by instrument() are restored after every case.')
+
 NOT_BUILT = {}
 
 
